@@ -45,6 +45,7 @@ def gen_case(rng, tier):
     prof["memory"] = rng.choice([0, 0, 0, 0.4])  # some configuration values are kept in memory
     prof["state_loops"] = rng.choice([0, 0, 0.6])  # hand-threaded loops that already carry an accelerator's state ...
     prof["head_launch"] = rng.choice([0, 0.5])  # ... and first launch the configuration they were entered with
+    G.classic(rng, prof)
     ast = G.AccfgGen(rng, prof).program()
     return {"ast": ast, "envs": gen_envs(rng, K_ENVS[tier]), "hoist": rng.random() < 0.7}
 
